@@ -8,12 +8,12 @@ sys.path.insert(0, HERE)
 CHECKS = {
     "C01": dict(
         technique="property-based testing (Hypothesis): generated schema x value round-trip through the real front end and codec",
-        text="Generated-input search: thousands of schemas over every type constructor, width 1..64 and bit alignment, with boundary-biased values; decode(encode(v)) compared structurally (floats bit-for-bit). Finds counterexamples, never proves absence.",
+        text="Generated-input search: thousands of schemas over every type constructor, width 1..64 and bit alignment, with boundary-biased values; decode(encode(v)) compared structurally (floats bit-for-bit); histories in one interpreter (same-named edited variants of the schema, load/use/drop alternation, failed calls in between) and a second, smaller run under `python -O`. Finds counterexamples, never proves absence.",
         note="Trusted: vlib generators/printer, Hypothesis. Enum values are integers. One recorded known finding (PY-SIGNED-MIN) is suppressed by exact signature only.",
         ref="4/C01"),
     "C02": dict(
         technique="differential property-based testing against an independent reference codec validated on the project's vectors",
-        text="Generated-input differential test: serde.encode bytes == reference canonical encoder and serde.decode(reference bytes) == value, plus the 26 project vectors through the Python codec. A symmetric encode/decode error is visible because the reference shares no code with fcp.serde.",
+        text="Generated-input differential test: serde.encode bytes == reference canonical encoder and serde.decode(reference bytes) == value, plus the 26 project vectors through the Python codec, the same one-interpreter histories as C01 and a smaller run under `python -O`. A symmetric encode/decode error is visible because the reference shares no code with fcp.serde.",
         note="Trusted: vlib/refcodec.py (self-tested against tests/standardized/fcp_tests.json at every run).",
         ref="4/C02"),
     "C04": dict(
@@ -33,12 +33,12 @@ CHECKS = {
         ref="4/C16"),
     "C07": dict(
         technique="grammar-directed property-based testing: print(description) -> parse == description, plus metamorphic formatting variants",
-        text="Generated descriptions over every production (incl. identifiers that begin like builtin types) are printed, parsed by the real front end and compared, type-strictly and order-sensitively, with a tree built from the description alone; two further renderings with random whitespace, comments and optional separators must give the identical tree.",
+        text="Generated descriptions over every production (incl. identifiers that begin like builtin types) are printed, parsed by the real front end and compared, type-strictly and order-sensitively, with a tree built from the description alone; two further renderings with random whitespace, comments (adversarial bodies) and optional separators must give the identical tree; plus the in-place edit sessions over module trees shared with C20.",
         note="Trusted: vlib/printer.py and vlib/expected_tree.py. Strings exclude quote/backslash/newline; keywords are not identifiers; ranges are float literals.",
         ref="4/C07"),
     "C08": dict(
         technique="property-based testing with injected negative cases over generated module trees",
-        text="Generated module trees with one reference optionally replaced by a self/forward/undeclared/out-of-scope reference at any container depth; accepted trees are walked leaf by leaf (get_type resolution, kind tag, declared-before), rejected ones must be Err with a diagnostic naming the type and the struct.",
+        text="Generated module trees with one reference optionally replaced by a self/forward/undeclared/out-of-scope reference at any container depth; accepted trees are walked leaf by leaf (get_type resolution, kind tag, declared-before), rejected ones must be Err with a diagnostic naming the type and the struct; plus the in-place edit sessions over module trees shared with C20 (a removed or re-kinded type must not stay resolvable for untouched modules).",
         note="Trusted: vlib/modules.py generator. Type names unique per tree.",
         ref="4/C08"),
     "C11": dict(
@@ -48,7 +48,7 @@ CHECKS = {
         ref="4/C11"),
     "C20": dict(
         technique="property-based differential testing of generated module trees against their single-file inlining, with fault injection",
-        text="Generated trees of real module files (depth <= 3, dotted paths, sub-directories): get_fcp(root) by absolute and relative path must equal the parse of the inlined text and the tree built from the description; one injected fault (illegal character, unterminated declaration, undeclared type, missing file) must yield an Err naming the module/file.",
+        text="Generated trees of real module files (depth <= 3, dotted paths, sub-directories): get_fcp(root) by absolute and relative path must equal the parse of the inlined text and the tree built from the description; one injected fault (illegal character, unterminated declaration, undeclared type, semantic error, missing file) must yield an Err naming the module/file; plus edit sessions: one directory edited in place (module emptied, enums turned into structs, fault typed in and removed) and re-loaded 2-4 times by the same process, each load compared with the single-file parse of what is on disk.",
         note="Trusted: vlib/modules.py. Module path components are unique within a tree.",
         ref="4/C20"),
     "C05": dict(
